@@ -31,6 +31,7 @@ type SpecEnv struct {
 	// pre is the state at loop entry (for loop invariants), optional
 	pre   *State
 	iter  *State           // state at the head of the current loop iteration (step clauses)
+	ranges []*MapIter      // map iterations of the function, in order of execution
 	rets  map[string][]Val // results of the latest contract call per callee (short name)
 	retNames map[string]map[string]int
 	depth int
@@ -70,6 +71,9 @@ func (e *SpecEnv) evalBool(x ast.Expr) *Term {
 func (e *SpecEnv) lookupType(x ast.Expr) types.Type {
 	switch t := x.(type) {
 	case *ast.Ident:
+		if t.Name == "PageSet" {
+			return pageSetType
+		}
 		if obj := types.Universe.Lookup(t.Name); obj != nil {
 			if tn, ok := obj.(*types.TypeName); ok {
 				return tn.Type()
@@ -691,6 +695,85 @@ func (e *SpecEnv) evalCall(n *ast.CallExpr) Val {
 			specFail("old() not available here")
 		}
 		return e.inState(e.old).eval(n.Args[0])
+	case "setEmpty":
+		argn(0)
+		return Val{t: b.ConstArray(SArray(SBV(64), SBool), b.False()), typ: pageSetType}
+	case "setRange":
+		// setRange(lo, hi): { p | lo <= p < hi }
+		argn(2)
+		lo := e.coerceSort(e.eval(n.Args[0]), SBV(64))
+		hi := e.coerceSort(e.eval(n.Args[1]), SBV(64))
+		return Val{t: e.cx.setComprehension(func(p *Term) *Term { return b.And(b.BVCmp("bvule", lo.t, p), b.BVCmp("bvult", p, hi.t)) }), typ: pageSetType}
+	case "setRegion":
+		// setRegion(r): pages of a region value
+		argn(1)
+		r := e.eval(n.Args[0])
+		if r.t == nil || r.typ == nil || !isStructType(r.typ) {
+			specFail("setRegion: region value expected")
+		}
+		si := w.structInfo(r.typ)
+		_, ii, ok1 := si.field("id")
+		_, ci, ok2 := si.field("count")
+		if !ok1 || !ok2 {
+			specFail("setRegion: not a region")
+		}
+		id := w.structField(si, r.t, ii)
+		cnt := b.Resize(w.structField(si, r.t, ci), 64, false)
+		return Val{t: e.cx.setComprehension(func(p *Term) *Term { return b.And(b.BVCmp("bvule", id, p), b.BVCmp("bvult", b.BVOp("bvsub", p, id), cnt)) }), typ: pageSetType}
+	case "setUnion", "setMinus", "setInter":
+		argn(2)
+		x := e.evalSet(n.Args[0])
+		y := e.evalSet(n.Args[1])
+		return Val{t: e.cx.setComprehension(func(p *Term) *Term {
+			switch name {
+			case "setUnion":
+				return b.Or(b.Select(x, p), b.Select(y, p))
+			case "setMinus":
+				return b.And(b.Select(x, p), b.Not(b.Select(y, p)))
+			}
+			return b.And(b.Select(x, p), b.Select(y, p))
+		}), typ: pageSetType}
+	case "setBelow":
+		// setBelow(s, hi): members of s that are < hi
+		argn(2)
+		x := e.evalSet(n.Args[0])
+		hi := e.coerceSort(e.eval(n.Args[1]), SBV(64))
+		return Val{t: e.cx.setComprehension(func(p *Term) *Term { return b.And(b.Select(x, p), b.BVCmp("bvult", p, hi.t)) }), typ: pageSetType}
+	case "subset", "disjoint":
+		argn(2)
+		x := e.evalSet(n.Args[0])
+		y := e.evalSet(n.Args[1])
+		pn := fmt.Sprintf("p?%d", e.cx.nextBound())
+		p := b.BVar(pn, SBV(64))
+		var body *Term
+		if name == "subset" {
+			body = b.Implies(b.Select(x, p), b.Select(y, p))
+		} else {
+			body = b.Not(b.And(b.Select(x, p), b.Select(y, p)))
+		}
+		return Val{t: b.Forall([]BoundVar{{pn, SBV(64)}}, body), typ: boolT}
+	case "setAllIn":
+		// setAllIn(s, lo, hi): every member p satisfies lo <= p < hi
+		argn(3)
+		x := e.evalSet(n.Args[0])
+		lo := e.coerceSort(e.eval(n.Args[1]), SBV(64))
+		hi := e.coerceSort(e.eval(n.Args[2]), SBV(64))
+		pn := fmt.Sprintf("p?%d", e.cx.nextBound())
+		p := b.BVar(pn, SBV(64))
+		return Val{t: b.Forall([]BoundVar{{pn, SBV(64)}}, b.Implies(b.Select(x, p), b.And(b.BVCmp("bvule", lo.t, p), b.BVCmp("bvult", p, hi.t))), b.Select(x, p)), typ: boolT}
+	case "visited":
+		// visited(n): keys already produced by the n-th map iteration of the function
+		argn(1)
+		kv := e.eval(n.Args[0])
+		if kv.konst == nil {
+			specFail("visited(n): constant index required")
+		}
+		idx, _ := constant.Int64Val(kv.konst)
+		if int(idx) >= len(e.ranges) {
+			specFail("visited(%d): the function has executed only %d map iterations here", idx, len(e.ranges))
+		}
+		it := e.ranges[idx]
+		return Val{t: b.Select(e.cur.heap(e.cx, it.visHeap), it.vis)}
 	case "iter":
 		argn(1)
 		if e.iter == nil {
@@ -934,6 +1017,25 @@ func (e *SpecEnv) evalCall(n *ast.CallExpr) Val {
 	}
 	specFail("unknown spec function %s", exprString(n.Fun))
 	return Val{}
+}
+
+// evalSet evaluates an expression denoting a set of page ids: a PageSet value,
+// or a Go map keyed by page ids (its domain).
+func (e *SpecEnv) evalSet(x ast.Expr) *Term {
+	v := e.eval(x)
+	b := e.b()
+	if v.t != nil && v.t.sort == SArray(SBV(64), SBool) {
+		return v.t
+	}
+	if v.typ != nil {
+		if mt, ok := v.typ.Underlying().(*types.Map); ok && e.w().sortOf(mt.Key()) == SBV(64) {
+			_, domH, _ := e.w().mapHeapNames(mt)
+			d := b.Select(e.cur.heap(e.cx, domH), v.t)
+			return b.Ite(b.IsNil(v.t), b.ConstArray(SArray(SBV(64), SBool), b.False()), d)
+		}
+	}
+	specFail("set of page ids expected: %s", exprString(x))
+	return nil
 }
 
 func (e *SpecEnv) callUninterp(uf *Uninterp, n *ast.CallExpr) Val {
